@@ -277,7 +277,15 @@ func cmdRace(prop string, n int, seed uint64, secs int, out string) (*Result, er
 		}
 		for i := range jobs {
 			jobs[i].want = runJob(jobs[i])
-			if len(jobs[i].want) > 200 {
+			nt := len(jobs[i].flag.Prerequisites) > 0
+			for _, ru := range jobs[i].flag.Rules {
+				for _, cl := range ru.Clauses {
+					if cl.Op == ldmodel.OperatorSegmentMatch {
+						nt = true
+					}
+				}
+			}
+			if nt && jobs[i].flag.On {
 				res.DistinctNontrivial++
 			}
 		}
